@@ -29,6 +29,7 @@ type Digest struct {
 type Region struct {
 	Lo, Hi uintptr
 	Own    string
+	Depth  int // nesting depth of the field below the root it was reached from
 }
 
 type walker struct {
@@ -84,12 +85,16 @@ func (w *walker) leaf(path, own, val string) {
 	w.d.Own = append(w.d.Own, own)
 }
 
-func (w *walker) region(v reflect.Value, own string) {
+func depthOf(path string) int {
+	return strings.Count(path, ".") + strings.Count(path, "[")
+}
+
+func (w *walker) region(v reflect.Value, own, path string) {
 	if w.regions == nil || !v.CanAddr() {
 		return
 	}
 	lo := v.UnsafeAddr()
-	*w.regions = append(*w.regions, Region{lo, lo + v.Type().Size(), own})
+	*w.regions = append(*w.regions, Region{lo, lo + v.Type().Size(), own, depthOf(path)})
 }
 
 func typeName(t reflect.Type) string {
@@ -166,7 +171,7 @@ func (w *walker) walk(v reflect.Value, path, own string) {
 		for i := 0; i < v.NumField(); i++ {
 			f := v.Type().Field(i)
 			o := tn + "." + f.Name
-			w.region(v.Field(i), o)
+			w.region(v.Field(i), o, path+"."+f.Name)
 			w.walk(v.Field(i), path+"."+f.Name, o)
 		}
 	case reflect.Array:
@@ -183,7 +188,7 @@ func (w *walker) walk(v reflect.Value, path, own string) {
 		w.leaf(path+".cap", own, strconv.Itoa(c))
 		if w.regions != nil && c > 0 {
 			lo := v.Pointer()
-			*w.regions = append(*w.regions, Region{lo, lo + uintptr(c)*v.Type().Elem().Size(), own + "[]"})
+			*w.regions = append(*w.regions, Region{lo, lo + uintptr(c)*v.Type().Elem().Size(), own + "[]", depthOf(path)})
 		}
 		if v.Type().Elem().Kind() == reflect.Uint8 {
 			// byte strings: content up to len as a string, spare capacity hashed
@@ -214,7 +219,7 @@ func (w *walker) walk(v reflect.Value, path, own string) {
 		if w.regions != nil {
 			// the runtime's map header: writes of an unsynchronised cache land here
 			lo := v.Pointer()
-			*w.regions = append(*w.regions, Region{lo, lo + 64, own + "(map)"})
+			*w.regions = append(*w.regions, Region{lo, lo + 8, own + "(map)", depthOf(path)})
 		}
 		w.leaf(path+".len", own, strconv.Itoa(v.Len()))
 		type ent struct {
@@ -303,19 +308,19 @@ func splitLine(l string) (string, string) {
 	return l, ""
 }
 
-// Resolve names the field whose memory contains addr ("" if unknown). The
-// narrowest containing region wins.
-func Resolve(regs []Region, addr uintptr) string {
-	best := ""
+// Resolve names the field whose memory contains addr ("" if unknown) and its
+// depth. The narrowest containing region wins.
+func Resolve(regs []Region, addr uintptr) (string, int) {
+	best, depth := "", 0
 	var bestSize uintptr
 	for _, r := range regs {
 		if addr >= r.Lo && addr < r.Hi {
 			if best == "" || r.Hi-r.Lo < bestSize {
-				best, bestSize = r.Own, r.Hi-r.Lo
+				best, bestSize, depth = r.Own, r.Hi-r.Lo, r.Depth
 			}
 		}
 	}
-	return best
+	return best, depth
 }
 
 var _ = unsafe.Pointer(nil)
